@@ -59,69 +59,80 @@ func (e *Engine) keyEq(st *State, a, b Value) *Term {
 }
 
 func (e *Engine) mapLookup(st *State, m MapV, k Value, zero Value) (Value, *Term) {
-	if m.obj == 0 {
-		return zero, e.False
-	}
-	o := e.obj(st, m.obj)
 	found := e.False
 	val := zero
-	nn := e.mapNonNil(m)
-	for _, c := range o.cells {
-		en := c.(StructV)
-		hit := e.And(nn, e.And(en.f[2].(*Term), e.keyEq(st, en.f[0], k)))
-		if hit.IsFalse() {
-			continue
+	for _, al := range m.alts {
+		o := e.obj(st, al.obj)
+		for _, c := range o.cells {
+			en := c.(StructV)
+			hit := e.And(al.g, e.And(en.f[2].(*Term), e.keyEq(st, en.f[0], k)))
+			if hit.IsFalse() {
+				continue
+			}
+			val = e.mergeValue(hit, en.f[1], val)
+			found = e.Or(found, hit)
 		}
-		val = e.mergeValue(hit, en.f[1], val)
-		found = e.Or(found, hit)
 	}
 	return val, found
 }
 
 func (e *Engine) mapLen(st *State, m MapV) *Term {
 	n := e.Const(64, 0)
-	if m.obj == 0 {
-		return n
-	}
-	for _, c := range e.obj(st, m.obj).cells {
-		pr := e.And(e.mapNonNil(m), c.(StructV).f[2].(*Term))
-		n = e.Bin(OpAdd, n, e.Ite(pr, e.Const(64, 1), e.Const(64, 0)))
+	for _, al := range m.alts {
+		for _, c := range e.obj(st, al.obj).cells {
+			pr := e.And(al.g, c.(StructV).f[2].(*Term))
+			n = e.Bin(OpAdd, n, e.Ite(pr, e.Const(64, 1), e.Const(64, 0)))
+		}
 	}
 	return n
 }
 
 func (e *Engine) mapUpdate(st *State, m MapV, k, v Value) {
-	o := e.wobj(st, m.obj)
 	if hasArr(k) {
 		k = e.copyVal(st, k)
 	}
 	if hasArr(v) {
 		v = e.copyVal(st, v)
 	}
-	found := e.False
-	for i, c := range o.cells {
-		en := c.(StructV)
-		hit := e.And(en.f[2].(*Term), e.keyEq(st, en.f[0], k))
-		if hit.IsFalse() {
-			continue
+	single := len(m.alts) == 1
+	for _, al := range m.alts {
+		g := al.g
+		if single {
+			g = e.True
 		}
-		o.cells[i] = StructV{[]Value{en.f[0], e.mergeValue(hit, v, en.f[1]), en.f[2]}}
-		found = e.Or(found, hit)
-	}
-	if !found.IsTrue() {
-		o.cells = append(o.cells, StructV{[]Value{k, v, e.Not(found)}})
+		o := e.wobj(st, al.obj)
+		found := e.False
+		for i, c := range o.cells {
+			en := c.(StructV)
+			hit0 := e.And(en.f[2].(*Term), e.keyEq(st, en.f[0], k))
+			if hit0.IsFalse() {
+				continue
+			}
+			o.cells[i] = StructV{[]Value{en.f[0], e.mergeValue(e.And(g, hit0), v, en.f[1]), en.f[2]}}
+			found = e.Or(found, hit0)
+		}
+		if !found.IsTrue() {
+			pres := e.And(g, e.Not(found))
+			if !pres.IsFalse() {
+				o.cells = append(o.cells, StructV{[]Value{k, v, pres}})
+			}
+		}
 	}
 }
 
 func (e *Engine) mapDelete(st *State, m MapV, k Value) {
-	if m.obj == 0 {
-		return
-	}
-	o := e.wobj(st, m.obj)
-	for i, c := range o.cells {
-		en := c.(StructV)
-		hit := e.keyEq(st, en.f[0], k)
-		o.cells[i] = StructV{[]Value{en.f[0], en.f[1], e.And(en.f[2].(*Term), e.Not(hit))}}
+	single := len(m.alts) == 1
+	for _, al := range m.alts {
+		g := al.g
+		if single {
+			g = e.True
+		}
+		o := e.wobj(st, al.obj)
+		for i, c := range o.cells {
+			en := c.(StructV)
+			hit := e.And(g, e.keyEq(st, en.f[0], k))
+			o.cells[i] = StructV{[]Value{en.f[0], en.f[1], e.And(en.f[2].(*Term), e.Not(hit))}}
+		}
 	}
 }
 
@@ -163,7 +174,26 @@ func (e *Engine) chanRecv(p *Path, c ChanV, elem types.Type, depth int, commaOk 
 				break
 			}
 			if !cl.IsFalse() {
-				unsup("receive on channel with symbolic closed flag")
+				// merged states disagree on whether the channel is closed: take them apart again
+				var open *State
+				if e.feasible(st.G, e.Not(cl)) {
+					open = e.fork(st)
+					open.G = e.And(st.G, e.Not(cl))
+					e.wobj(open, c.obj).cells[0] = e.False
+				}
+				if e.feasible(st.G, cl) {
+					st.G = e.And(st.G, cl)
+					e.wobj(st, c.obj).cells[0] = e.True
+					if open != nil {
+						work = append(work, open)
+					}
+					continue
+				}
+				if open == nil {
+					break
+				}
+				st = open
+				continue
 			}
 			// would block: run one pending task to completion
 			if len(st.tasks) == 0 {
